@@ -80,8 +80,27 @@ def _walk(o, f):
     return o
 
 
-def finalize(trace, max_scale=720720):
-    """integer ticks: scale = lcm of all denominators occurring in the trace"""
+def finalize(trace, max_scale=720720, dec=0, eps=0):
+    """integer ticks: scale = lcm of all denominators occurring in the trace (two-scale traces: the inverse of
+    scenario.frac_of; a date off the lattice A * 10^-dec + B * 10^-eps is not an exact decimal sum of the samples)"""
+    if eps:
+        from .scenario import EPS_M
+        cu, fu = 10 ** dec, 10 ** eps
+
+        def conv2(fr):
+            A = round(fr * cu)
+            B = (fr - Fraction(A, cu)) * fu
+            if B.denominator != 1:
+                raise Unrepresentable("date %s is not on the decimal lattice 10^-%d + 10^-%d" % (fr, dec, eps))
+            if abs(B) >= EPS_M // 2:
+                raise Unrepresentable("date %s: fine part %s out of range" % (fr, B))
+            n = A * EPS_M + int(B)
+            if abs(n) >= INF // 10:
+                raise Unrepresentable("date %s too large" % fr)
+            return n
+        out = _walk(trace, conv2)
+        out["scale"] = EPS_M * cu
+        return out
     dens = set()
 
     def coll(fr):
